@@ -20,6 +20,9 @@ PROP = dict(
         "layouts: 2-6 scripts and 0-3 data files in directories nested <= 3 below a base directory at 6 places (inside/outside/"
         "above the working directories), go.mod at the base, absent, only nested, base + nested, or above the base; main script at "
         "any depth, given absolutely or relative to the working directory (also through '..'); names with spaces; ASCII only",
+        "plus n/6 nested-module layouts x 2: go.mod at the base and/or 1-2 nested directories, the same relative names with "
+        "different contents in every directory, module-rooted imports at every depth (also directly in a nested root), the main "
+        "script's imports in both orders (root-cache state of an earlier import is live for the later ones)",
         "data files .json/.yaml/.yml/.txt/.b with implicit decoders, explicit //encoding.json and //encoding.bytes decoders",
         "the working directory is process-wide: the harness runs these cases with one worker",
     ],
